@@ -150,7 +150,12 @@ def run(ctx, build, verdict, ev):
         mism.append(index[i])
     if mism:
         verdict.add_broken("correspondence", f"tsukamoto kernel {mism[0][0]}", f"translated kernel over binary64 and implementation differ on {len(mism)} cases, first: {mism[:3]}")
+    # exact (tolerance-free) checks of the binary64-level theorems of Properties/C11b.v on the implementation
+    import floatlaws
+    fx = floatlaws.tsukamoto(ctx, verdict, fl)
     c = ev["coverage"]
+    c["exact_float_law_checks"] = fx["exact_float_law_checks"]
+    c["exact_float_law_violations"] = fx["exact_float_law_violations"]
     c["evaluations"] = evaluations
     c["distinct_nontrivial"] = len(nontrivial)
     c["rule"] = ("6 monotonic terms x valid parameterisations (both directions, heights) x y in (0,h): 3 float neighbours each side of 0, h/2, h; k/16 grid; random; 1e-9 h and (1-1e-9) h; "
